@@ -9,7 +9,7 @@ def sh(cmd, cwd=W, timeout=3600, env=None):
 if not os.path.exists(W):
     sh('git -C /repo worktree add --detach %s HEAD' % W, cwd='/')
 seeds = sorted(glob.glob('/verif/seeded/C*-m*')) if len(sys.argv) < 2 else ['/verif/seeded/' + a for a in sys.argv[1:]]
-env = dict(os.environ, VERIF_REPO=W, VERIF_EVIDENCE_DIR='/tmp/seed_evidence')
+env = dict(os.environ, VERIF_REPO=W, VERIF_EVIDENCE_DIR='/tmp/seed_evidence_' + os.path.basename(W), VERIF_FAIL_FAST='1')
 for d in seeds:
     pid = os.path.basename(d).split('-')[0]
     sh('git checkout -- . && git clean -fdq tests')
